@@ -185,6 +185,15 @@ def main(tier, replay=None):
         t = render(ast)
         texts = [t, render(ast, lambda: rng.choice(WS))]
         obs.append(run_variants(lib, ast, base_env(), texts, 'str', True))
+    # text arguments that are, or contain, a separator character - in calls and arrays of every separator style
+    for t1 in (',', ';', '\\\\'.replace('\\\\', chr(92)), ', ', 'a;b', ';;', ',,'):
+        for shape in (lambda x: F.call('REC', F.num('1'), x), lambda x: F.call('REC', x, x, F.num('2')),
+                      lambda x: F.call('REC', F.num('1'), dict(F.OMIT), x), lambda x: F.arr(x, F.num('1')),
+                      lambda x: F.call('REC', x)):
+            for q in ('"', "'"):
+                ast = shape(F.string(t1, q))
+                texts = [render(set_sep(ast, s)) for s in (',', ';', chr(92))]
+                obs.append(run_variants(lib, ast, base_env(), texts, 'septext', False))
     # a content ending in a backslash, as the last token
     for s in ('a\\', '\\', 'x y\\'):
         for q in ('"', "'"):
